@@ -31,7 +31,10 @@ fn allowed_map(sc: &HubSc, init: &BTreeMap<String, Vec<u8>>) -> BTreeMap<String,
                     let h = b3(&body);
                     let path = norm_path(path);
                     m.entry(path.clone()).or_default().insert(h);
-                    m.entry(format!("{path}.conflict-{}", short_hex(&h))).or_default().insert(h);
+                    // its conflict-copy (one suffix further when that name holds other content)
+                    let sfx = format!(".conflict-{}", short_hex(&h));
+                    m.entry(format!("{path}{sfx}")).or_default().insert(h);
+                    m.entry(format!("{path}{sfx}{sfx}")).or_default().insert(h);
                 }
             }
         }
